@@ -3,7 +3,8 @@ package app
 import "fmt"
 
 // segDataBuffer is a circular buffer for segment data.
-// It has a limited range between its first and last sequence numbers.
+// It has a limited range between its first and last sequence numbers:
+// with last number n it only holds numbers bigger than n - size.
 // Holes are allowed.
 type segDataBuffer struct {
 	size     uint32
@@ -39,20 +40,21 @@ func (c *segDataBuffer) add(item recSegData) error {
 	if item.seqNr <= lastSeqNr {
 		return fmt.Errorf("sequence number not increasing, expected %d, got %d", lastSeqNr+1, item.seqNr)
 	}
-	if c._nrItems < c.size {
-		c.items[c._nrItems] = item
-		c._nrItems++
-		return nil
-	}
+	// Discard the items outside the range of size numbers that ends with the new number.
+	// That leaves room for the new item, since the numbers are increasing.
 	nrToDiscard := uint32(0)
-	for i := uint32(0); i < c.size; i++ {
-		if c.items[i].seqNr <= item.seqNr-uint32(c.size) {
-			nrToDiscard++
+	for i := uint32(0); i < c._nrItems; i++ {
+		if c.items[i].seqNr+c.size > item.seqNr {
+			break
 		}
+		nrToDiscard++
 	}
-	copy(c.items, c.items[nrToDiscard:])
-	c._nrItems -= (nrToDiscard - 1)
-	c.items[c._nrItems-1] = item
+	if nrToDiscard > 0 {
+		copy(c.items, c.items[nrToDiscard:c._nrItems])
+		c._nrItems -= nrToDiscard
+	}
+	c.items[c._nrItems] = item
+	c._nrItems++
 	return nil
 }
 
